@@ -104,6 +104,11 @@ def notify_ids(n_per_dest, dests=2):
             eg.log.disabled = True
             eg.values[1] = b"x"
             eg.values[2] = b"yz"
+            # a second eventgroup of the SAME service with the same subscribers: the ids count per destination, not per group
+            eg2 = V.SimpleEventgroup(svc, 6)
+            eg2.log.disabled = True
+            eg2.values[1] = b"pq"
+            eg2.values[2] = b""
             eps = [H.IPv4EndpointOption(address=ipaddress.IPv4Address("10.0.0.1"), l4proto=H.L4Protocols.UDP, port=4000 + k) for k in range(dests)]   # one host, two ports
             used = {id(ep): 0 for ep in eps}
             for k in range(n_per_dest):
@@ -113,7 +118,7 @@ def notify_ids(n_per_dest, dests=2):
                     rem = 65535 - used[id(ep)] % 65535
                     evs = [1] if rem in (3, 4, 5) else [2, 1, 1] if rem in (1, 2) else [[1], [1], [1, 2], [2, 1, 1]][k % 4]
                     used[id(ep)] += len(evs)
-                    await eg._notify_single(ep, evs, "t")
+                    await (eg2 if k % 5 == 2 else eg)._notify_single(ep, evs, "t")
             return eps
         loop.run_until_complete(go())
         per = {}
